@@ -13,14 +13,14 @@ struct Send { int dst = 0, flags = 0, src_own = 0; };
 struct Sender { int in_pool = 0, pool_idx = 0; std::vector<Send> sends; };
 struct Fault { int fn = 0, k = 0, err = 0; };
 struct MsgCase {
-  int nthreads = 1, skip_first = 0, stall_dst = 255, burst = 0, burst_flags = 0, late_burst = 0, late_dst = 0, race_n = 0, race_dst = 0, race_flags = 0, pool_flags = 0, late_self = 0, selfarg = 0;
+  int nthreads = 1, skip_first = 0, stall_dst = 255, burst = 0, burst_flags = 0, late_burst = 0, late_dst = 0, race_n = 0, race_dst = 0, race_flags = 0, pool_flags = 0, late_self = 0, selfarg = 0, late_by_self = 0, pvt_sources = 0;
   std::vector<int> aops;  // triples alloc_on, dst, free_on (255 = outside / NULL)
   std::vector<Sender> senders;
   Bytes plan;
   std::vector<Fault> faults;
   std::string ser() const {
     Writer w;
-    w.i("nthreads", nthreads).i("skip_first", skip_first).i("stall_dst", stall_dst).i("burst", burst).i("burst_flags", burst_flags).i("late_burst", late_burst).i("late_dst", late_dst).i("race_n", race_n).i("race_dst", race_dst).i("race_flags", race_flags).i("pool_flags", pool_flags).i("late_self", late_self).i("selfarg", selfarg);
+    w.i("nthreads", nthreads).i("skip_first", skip_first).i("stall_dst", stall_dst).i("burst", burst).i("burst_flags", burst_flags).i("late_burst", late_burst).i("late_dst", late_dst).i("race_n", race_n).i("race_dst", race_dst).i("race_flags", race_flags).i("pool_flags", pool_flags).i("late_self", late_self).i("selfarg", selfarg).i("late_by_self", late_by_self).i("pvt_sources", pvt_sources);
     { std::vector<long long> a(aops.begin(), aops.end()); w.iv("aops", a); }
     w.i("nsenders", (long long)senders.size());
     for (size_t i = 0; i < senders.size(); i++) {
@@ -40,7 +40,7 @@ struct MsgCase {
     c.nthreads = (int)r.i("nthreads", 1); c.skip_first = (int)r.i("skip_first"); c.stall_dst = (int)r.i("stall_dst", 255);
     c.burst = (int)r.i("burst"); c.burst_flags = (int)r.i("burst_flags"); c.late_burst = (int)r.i("late_burst"); c.late_dst = (int)r.i("late_dst");
     c.race_n = (int)r.i("race_n"); c.race_dst = (int)r.i("race_dst"); c.race_flags = (int)r.i("race_flags");
-    c.pool_flags = (int)r.i("pool_flags"); c.late_self = (int)r.i("late_self"); c.selfarg = (int)r.i("selfarg");
+    c.pool_flags = (int)r.i("pool_flags"); c.late_self = (int)r.i("late_self"); c.selfarg = (int)r.i("selfarg"); c.late_by_self = (int)r.i("late_by_self"); c.pvt_sources = (int)r.i("pvt_sources");
     for (long long v : r.iv("aops")) c.aops.push_back((int)v);
     int n = (int)r.i("nsenders");
     for (int i = 0; i < n; i++) {
@@ -103,10 +103,14 @@ static Verdict evaluate(const MsgCase &c, const c05_out &o, bool &hang) {
     x.used = true; x.racing = true; x.sender = (int)c.senders.size() + 2; x.seq = (int)(b - (o.nsends - o.nrace));
     x.dst = c.race_dst % c.nthreads; x.flags = c.race_flags & 7;
   }
-  for (uint32_t b = (uint32_t)c.senders.size() * C05_MAX_SENDS; b < o.nsends - o.nlate - o.nrace - o.nself; b++) {
+  for (uint32_t b = (uint32_t)c.senders.size() * C05_MAX_SENDS; b < o.nsends - o.nlate - o.nrace - o.nself - o.npvt_msg; b++) {
     SendInfo &x = si[b];
     x.used = true; x.sender = (int)c.senders.size(); x.seq = (int)(b - c.senders.size() * C05_MAX_SENDS);
     x.dst = c.stall_dst; x.flags = c.burst_flags & 7;
+  }
+  if (o.npvt_msg) {  // the message sent to the virtual thread while its other event sources were ready and every worker was busy
+    SendInfo &x = si[o.nsends - o.nlate - o.nrace - o.nself - 1];
+    x.used = true; x.sender = (int)c.senders.size() + 4; x.seq = 0; x.dst = 255; x.flags = 0;
   }
   for (uint32_t b = o.nsends - o.nlate - o.nrace - o.nself; b < o.nsends - o.nrace - o.nself; b++) {  // late burst: plain sends to a stalled, still running thread after tp_shutdown()
     SendInfo &x = si[b];
@@ -143,6 +147,19 @@ static Verdict evaluate(const MsgCase &c, const c05_out &o, bool &hang) {
     if (x.after_stop) {
       // the destination (= the sender's own thread) has processed its stop message: it is not running any more. A plain send
       // must be refused (nothing can deliver it), FORCE must run the callback directly; in any case success <=> ran exactly once
+      if (c.late_by_self) {
+        // variant: the stop message is queued BEHIND the burst (the held thread called tp_shutdown() itself), so this callback runs while
+        // its thread is still running: the self-send is accepted and lands behind the stop message. Whether it is still read depends on
+        // the batch boundaries (no read follows a partial batch once the thread is stopping) -- the known accepted-then-lost defect.
+        PBT_REQUIRE(x.cbs.size() <= 1, "DUPLICATE: self-send " << id << " ran its callback " << x.cbs.size() << " times");
+        if (x.rc != 0) PBT_REQUIRE(x.cbs.empty(), "self-send " << id << " returned " << x.rc << " but its callback ran");
+        if (x.rc == 0 && x.cbs.empty()) {
+          if (known("c05_send_accepted_after_last_queue_look_is_lost")) excluded("c05_send_accepted_after_last_queue_look_is_lost");
+          else return Verdict::fail("LOST: self-send " + std::to_string(id) + " made by a callback that ran in the batch of the thread's stop message returned 0 but its callback never ran");
+        }
+        label("self_send_in_the_batch_of_the_stop_message");
+        continue;
+      }
       if (x.rc == 0) PBT_REQUIRE(x.cbs.size() == 1, "LOST: self-send " << id << " (flags " << x.flags << ") issued after the thread's stop message returned 0 but its callback ran " << x.cbs.size() << " time(s)");
       else PBT_REQUIRE(x.cbs.empty(), "self-send " << id << " (flags " << x.flags << ") issued after the thread's stop message returned " << x.rc << " but its callback ran");
       if ((x.flags & 2)) PBT_REQUIRE(x.rc == 0, "self-send " << id << " with FORCE to the stopping thread returned " << x.rc << " instead of calling directly");
@@ -246,8 +263,10 @@ static Verdict evaluate(const MsgCase &c, const c05_out &o, bool &hang) {
   if (o.nlate) label(o.nlate > 1024 ? "late_burst_after_shutdown_gt_1024" : "late_burst_after_shutdown");
   if (o.nrace) label("sends_racing_with_shutdown");
   if (c.pool_flags & 2) label("pool_with_CLOEXEC");
+  if (o.npvt_msg) { label("message_competes_with_event_sources_on_virtual_thread"); PBT_REQUIRE(o.pvt_pipe_cbs >= 1 || c.nthreads == 0, "harness: no pipe event on the virtual thread was served"); }
+  if (o.nlate && c.late_by_self) label("late_burst_then_shutdown_by_the_held_thread");
   for (int p : {1, 2, 3}) if (o.res.vp_hits[p]) label("vp" + std::to_string(p) + "_hit");
-  if (overlap || inj || failed || direct_taken || (pvt_sends && c.nthreads >= 2) || o.nlate || o.nrace || o.naop_done) nontrivial_cur();
+  if (overlap || inj || failed || direct_taken || (pvt_sends && c.nthreads >= 2) || o.nlate || o.nrace || o.naop_done || o.npvt_msg) nontrivial_cur();
   return Verdict::pass();
 }
 
@@ -260,7 +279,7 @@ static Verdict run_case(const MsgCase &c) {
   scn->burst = (uint16_t)std::min(4000, c.burst);
   scn->burst_flags = (uint8_t)c.burst_flags;
   scn->late_burst = (uint16_t)std::min(1990, std::max(0, c.late_burst)); scn->late_dst = (uint8_t)c.late_dst;
-  scn->race_n = (uint8_t)std::min(200, std::max(0, c.race_n)); scn->race_dst = (uint8_t)c.race_dst; scn->selfarg = (uint8_t)c.selfarg;
+  scn->race_n = (uint8_t)std::min(200, std::max(0, c.race_n)); scn->race_dst = (uint8_t)c.race_dst; scn->selfarg = (uint8_t)c.selfarg; scn->late_by_self = (uint8_t)c.late_by_self; scn->pvt_sources = (uint8_t)c.pvt_sources;
   scn->naops = (uint8_t)std::min<size_t>(8, c.aops.size() / 3);
   for (int i = 0; i < scn->naops; i++) { scn->aop[i].alloc_on = (uint8_t)c.aops[3 * i]; scn->aop[i].dst = (uint8_t)c.aops[3 * i + 1]; scn->aop[i].free_on = (uint8_t)c.aops[3 * i + 2]; }
   scn->pool_flags = (uint8_t)c.pool_flags; scn->late_self = (uint8_t)(c.late_self && c.late_burst > 0);
@@ -327,7 +346,7 @@ static rc::Gen<MsgCase> genCase() {
     if (*range<int>(0, 7) == 0) {
       // sends accepted between tp_shutdown() and the moment the destination sees its stop message (it is held in a callback)
       c.late_dst = *range<int>(c.skip_first ? 1 : 0, std::max(c.skip_first ? 1 : 0, c.nthreads - 1));
-      if (c.late_dst < c.nthreads && !(c.skip_first && c.late_dst == 0)) { c.late_burst = *rc::gen::element(3, 200, 1000, 1100, 1500, 1900); c.late_self = *range<int>(0, 1); }
+      if (c.late_dst < c.nthreads && !(c.skip_first && c.late_dst == 0)) { c.late_burst = *rc::gen::element(3, 200, 1000, 1100, 1500, 1900); c.late_self = *range<int>(0, 1); c.late_by_self = *range<int>(0, 1); }
     }
     if (c.late_burst == 0 && *range<int>(0, 5) == 0) {
       // an external thread keeps sending to one started thread while tp_shutdown() is called
@@ -335,6 +354,7 @@ static rc::Gen<MsgCase> genCase() {
       if (c.race_dst < c.nthreads && !(c.skip_first && c.race_dst == 0)) { c.race_n = *range<int>(12, 60); c.race_flags = *rc::gen::element(0, 0, 2, 4, 6) | (*range<int>(0, 2) == 0 ? 8 : 0); }
     }
     c.pool_flags = *rc::gen::weightedElement<int>({{3, 0}, {1, 1}, {2, 2}, {1, 3}});  // pool settings: BIND2CPU, CLOEXEC
+    c.pvt_sources = (!c.skip_first && *range<int>(0, 4) == 0) ? 1 : 0;  // pipes on the virtual thread + one message while every worker is busy
     c.selfarg = *rc::gen::weightedElement<int>({{2, 0}, {1, 1}});  // first send of sender 0 passes the callback's own address as its argument
     if (*range<int>(0, 3) == 0) {
       // async operations between started threads (and the outside)
